@@ -129,3 +129,54 @@ Example C03_example :
   let r := fst (handle (fun _ _ => false) [mkRule None 0 (Some 0)] false (fun _ _ => UFail) m ANone) in
   h_rcode (m_hdr r) = 2%N /\ m_qs r = [mkQuestion [1; 97]%N 1 1] /\ h_id (m_hdr r) = 9%N.
 Proof. vm_compute. auto. Qed.
+
+(* ---- multi_routes UDP listener: the response leaves from the address the query was sent to (internal/udpcmsg) ------
+   A client of a UDP listener (a connected socket, or any resolver that checks the source) matches a response by its
+   source address: on a wildcard listener of a multi-homed host the response "matches" only when it leaves from the
+   local address the query arrived at.  [cm_enc ms] is ancillary data as the kernel builds it (any list of control
+   messages, padded); [cm_kernel_src] is what the kernel reads from the ancillary data of sendmsg. *)
+From Mos Require Import Net.Cmsg Net.CmsgProofs.
+
+(* ParseLocalAddr terminates on every octet string *)
+Theorem C03_cmsg_parse_total : forall oob : list N, cm_parse oob <> CmFuel.
+Proof. exact cm_parse_total. Qed.
+Print Assumptions C03_cmsg_parse_total.
+
+(* on kernel-built ancillary data: the destination address of the FIRST PKTINFO message, whatever else is there, and
+   never a read past the slice *)
+Theorem C03_cmsg_parse_kernel : forall ms : list cm_msg, Forall cm_wf1 ms ->
+  cm_parse (cm_enc ms) = cm_first_pktinfo ms /\ cm_parse (cm_enc ms) <> CmUnsafe.
+Proof.
+  intros ms H. rewrite (cm_parse_kernel ms H). split; [reflexivity|]. apply cm_first_pktinfo_safe.
+Qed.
+Print Assumptions C03_cmsg_parse_kernel.
+
+(* CmsgPktInfo: one message of CmsgSize octets naming the unmapped address as source, interface index 0 — for every
+   valid address and whatever the recycled buffer held *)
+Theorem C03_cmsg_pktinfo : forall (b : list N) (a : cm_addr), cm_valid a ->
+  exists c, cm_pktinfo b a = Some c /\ cm_kernel_src c = Some (cm_unmap a, 0%N) /\ length c = cm_size a.
+Proof. exact cm_pktinfo_kernel. Qed.
+Print Assumptions C03_cmsg_pktinfo.
+
+(* the composition the UDP server performs (handleMsg -> writeResp) *)
+Theorem C03_cmsg_reply_from_query_dst : forall (b : list N) (ms : list cm_msg) (d : cm_addr),
+  Forall cm_wf1 ms -> cm_first_pktinfo ms = CmOk d -> cm_valid d ->
+  exists c, cm_reply_oob b (cm_enc ms) = Some c /\ cm_kernel_src c = Some (cm_unmap d, 0%N).
+Proof. exact cm_reply_from_query_dst. Qed.
+Print Assumptions C03_cmsg_reply_from_query_dst.
+
+Theorem C03_cmsg_reply_none : forall (b : list N) (ms : list cm_msg),
+  Forall cm_wf1 ms -> cm_first_pktinfo ms = CmOk CmNone -> cm_reply_oob b (cm_enc ms) = None.
+Proof. exact cm_reply_none. Qed.
+Print Assumptions C03_cmsg_reply_none.
+
+(* partial: on octets that are NOT kernel-built (a tail of 1..15 octets after a message) the header cast of
+   unix.ParseOneSocketControlMessage reads past the slice (ParseLocalAddr tests len(oob), not len(remain)); the kernel
+   never produces such data, so no property of the proxy depends on it *)
+Theorem C03_cmsg_tail_unsafe_refuted : exists oob : list N, cm_parse oob = CmUnsafe.
+Proof. eexists. exact cm_parse_unsafe_witness. Qed.
+Print Assumptions C03_cmsg_tail_unsafe_refuted.
+
+Example C03_cmsg_example :
+  Forall cm_wf1 cm_ex_ms /\ cm_first_pktinfo cm_ex_ms = CmOk (Cm4 [10; 1; 2; 3]%N) /\ cm_valid (Cm4 [10; 1; 2; 3]%N).
+Proof. exact cm_ex_ms_ok. Qed.
